@@ -276,6 +276,12 @@ func (e *Engine) VerifyLemma(key string) *FuncResult {
 		}
 		c.oblige(st, "cover", "requires", "false", spec.Props, "lemma precondition is satisfiable")
 		c.obls[len(c.obls)-1].ExpectSat = true
+		// instances of other lemmas, and of the lemma itself at a smaller measure (induction): each instance is
+		// justified by obligations (its preconditions; for a recursive instance also 0 <= measure' < measure)
+		// before its conclusion is assumed
+		for ui, u := range spec.Uses {
+			c.lemmaUse(st, env, names, key, ui, u)
+		}
 		for i, en := range spec.Ensures {
 			lbl := en.Label
 			if lbl == "" {
@@ -847,4 +853,101 @@ func (c *FnCtx) detPass() {
 		o := c.obls[len(c.obls)-1]
 		o.Status, o.Backend, o.Output = "failed", "constfold", "map iteration order may reach the result: no uniqueness obligation"
 	}
+}
+
+// lemmaUse instantiates lemma `u.Call` inside the proof of lemma `key` (guard u.When).
+func (c *FnCtx) lemmaUse(st *State, env *Env, names map[string]Val, key string, ui int, u UseSpec) {
+	call := strings.TrimSpace(u.Call)
+	k := strings.Index(call, "(")
+	if k < 0 || !strings.HasSuffix(call, ")") {
+		panic(unsupportedErr{"use needs name(args): " + call})
+	}
+	name := call[:k]
+	lkey := c.spec.Pkg + ".lemma." + name
+	lem := c.eng.Contracts.Funcs[lkey]
+	if lem == nil {
+		panic(unsupportedErr{"unknown lemma " + name})
+	}
+	recursive := lkey == key
+	if !recursive && c.lemmaReaches(lkey, key, map[string]bool{}) {
+		// mutual recursion between lemmas is not supported (no common measure): would be circular reasoning
+		panic(unsupportedErr{"lemma " + name + " depends on " + key + ": circular use"})
+	}
+	if recursive && c.spec.Decreases == "" {
+		panic(unsupportedErr{"recursive use of " + name + " needs a decreases clause"})
+	}
+	_, pnames, _, _ := specParamNames(lem.Decl)
+	args := splitTopCommas(call[k+1 : len(call)-1])
+	if len(args) == 1 && strings.TrimSpace(args[0]) == "" {
+		args = nil
+	}
+	if len(args) != len(pnames) {
+		panic(unsupportedErr{fmt.Sprintf("lemma %s expects %d arguments", name, len(pnames))})
+	}
+	guard := "true"
+	if u.When != "" {
+		guard = env.evalSpecBool(Clause{Expr: u.When, File: u.File, Line: u.Line})
+	}
+	inst := map[string]Val{}
+	for i, a := range args {
+		v := env.evalSpecString(strings.TrimSpace(a))
+		inst[pnames[i]] = Val{T: env.term(v, token.NoPos), Const: v.Const}
+	}
+	if lem.Decl.Type.Params != nil {
+		i := 0
+		for _, f := range lem.Decl.Type.Params.List {
+			for range f.Names {
+				if pt, err := c.eng.evalType(c.fi.Pkg, exprString2(f.Type)); err == nil {
+					inst[pnames[i]] = env.coerce(inst[pnames[i]], c.eng.Sorts.SortOf(pt))
+					v := inst[pnames[i]]
+					v.GoT = pt
+					inst[pnames[i]] = v
+				}
+				i++
+			}
+		}
+	}
+	lenv := &Env{c: c, st: st, names: inst, pkg: c.fi.Pkg, foreign: true}
+	for i, r := range lem.Requires {
+		lbl := r.Label
+		if lbl == "" {
+			lbl = fmt.Sprintf("r%d", i+1)
+		}
+		c.oblige(st, fmt.Sprintf("pre@lemma.%s#%d", name, ui+1), lbl, implies(guard, lenv.evalSpecBool(r)), c.spec.Props, r.Expr)
+	}
+	if recursive {
+		m0 := env.evalSpecString(c.spec.Decreases).T.S
+		m1 := lenv.evalSpecString(c.spec.Decreases).T.S
+		c.oblige(st, fmt.Sprintf("decreases@lemma.%s#%d", name, ui+1), "", implies(guard, and(app("<=", "0", m1), app("<", m1, m0))), c.spec.Props, c.spec.Decreases)
+	}
+	for _, en := range lem.Ensures {
+		st.Assume(implies(guard, lenv.evalSpecBool(en)))
+	}
+}
+
+// lemmaReaches: does lemma `from` (transitively) use lemma `to`?
+func (c *FnCtx) lemmaReaches(from, to string, seen map[string]bool) bool {
+	if seen[from] {
+		return false
+	}
+	seen[from] = true
+	f := c.eng.Contracts.Funcs[from]
+	if f == nil || f.Trusted {
+		return false
+	}
+	for _, u := range f.Uses {
+		call := strings.TrimSpace(u.Call)
+		k := strings.Index(call, "(")
+		if k < 0 {
+			continue
+		}
+		next := f.Pkg + ".lemma." + call[:k]
+		if next == to {
+			return true
+		}
+		if next != from && c.lemmaReaches(next, to, seen) {
+			return true
+		}
+	}
+	return false
 }
